@@ -34,6 +34,8 @@ class Monitor:
                 name = args[0]
                 if name in self.watch_modules or name.split(".")[0] in ("vp_canary_mod", "vp_canary_pkg"):
                     self.events.append(("import-of-named-module", name))
+                elif getattr(self, "tokens", None) and name.split(".")[-1] in self.tokens and name.split(".")[-1].startswith("vp_"):
+                    self.events.append(("import-of-input-chosen-name", name))
                 return
             if event == "open":
                 path, mode = args[0], args[1]
@@ -60,10 +62,13 @@ class Monitor:
         except Exception as e:  # noqa: BLE001 - never let the monitor disturb the monitored code
             self.events.append(("monitor-error", repr(e)))
 
-    def run(self, fn):
-        """Run fn() monitored. Returns (outcome, events, new watched modules)."""
+    def run(self, fn, tokens=frozenset()):
+        """Run fn() monitored. Returns (outcome, events, new watched modules).
+        tokens: identifier-like strings occurring in the input; importing a module named after one of them is an effect
+        'named by the input' (e.g. a codec module looked up from an encoding name the input supplies)."""
         before = set(sys.modules)
         self.events = []
+        self.tokens = tokens
         self.on = True
         try:
             try:
